@@ -84,8 +84,10 @@ class PopulationBalanceModel:
 
         #Hidden variable for use in KWNEuler when adaptive time stepping is enabled
         #This allows for PSD to revert to its previous value if a time constraint is not met
-        self._prevPSD = np.zeros(self.bins)
-        self._prevPSDbounds = np.zeros(self.bins+1)
+        #A full reset also resets the backup to the new (empty) grid, resizing the size classes (resetBounds = False) keeps it
+        if resetBounds or not hasattr(self, '_prevPSD'):
+            self._prevPSD = np.zeros(self.bins)
+            self._prevPSDbounds = np.array(self.PSDbounds)
 
         #Temporary storage for net flux
         #This is used to correct the fluxes once the time step is known
